@@ -23,12 +23,14 @@ orc_verif_yield (void)
 {
   static int mode = -1;
   static __thread unsigned int x;
-  if (mode < 0) {
+  int m = __atomic_load_n (&mode, __ATOMIC_RELAXED);
+  if (m < 0) {
     const char *e = getenv ("ORC_VERIF_YIELD");
-    mode = (e && e[0]) ? atoi (e) + 1 : 0;
+    m = (e && e[0]) ? atoi (e) + 1 : 0;
+    __atomic_store_n (&mode, m, __ATOMIC_RELAXED);
   }
-  if (!mode) return;
-  if (!x) x = (unsigned int) mode * 2654435761u + (unsigned int) (unsigned long) pthread_self ();
+  if (!m) return;
+  if (!x) x = (unsigned int) m * 2654435761u + (unsigned int) (unsigned long) pthread_self ();
   x ^= x << 13; x ^= x >> 17; x ^= x << 5;
   if ((x & 3) == 0) usleep ((x >> 8) % 200);
 }
